@@ -1472,6 +1472,50 @@ fn shared_group_membership_survives_session_resume_and_unrelated_unsubscribe() {
     report(name, "C17,C08", "3 strategies x QoS 0/1 x {session resume, unsubscribe of an unrelated plain filter, unsubscribe of another shared filter of the same share name} x member alone / with a second member", cases, fail);
 }
 
+/// C17: a persistent member that leaves with unacknowledged messages.  On the pinned tree the router rewinds the cursor of
+/// the WHOLE group to that member's oldest unacknowledged message, so the remaining members are sent again what they
+/// had already acknowledged: recorded as a KNOWN FINDING (its own obligation, so that nothing else is masked).
+// @native props=C17 tier=quick fn=Router::handle_disconnection (persistent branch: group cursor rewind)
+#[test]
+fn persistent_member_leaving_does_not_make_others_receive_acknowledged_messages_again() {
+    let name = "rumqttd::Router::handle_disconnection#leaving_persistent_member_rewinds_group_cursor";
+    let mut cases = 0u64;
+    let mut fail: Option<String> = None;
+    'outer: for strategy in [Strategy::RoundRobin, Strategy::Random] {
+        for n in [2usize, 4, 6] {
+            cases += 1;
+            let desc = format!("strategy {:?}: a (clean-session off) and b in $share/g/t QoS 1; {} publishes; b acknowledges its share, a nothing; a's link fails; one more publish", strategy, n);
+            let mut r = Router::new(0, cfg(1024 * 1024, 10, strategy.clone()));
+            let p = connect(&mut r, "p", true).unwrap();
+            let a = connect(&mut r, "a", false).unwrap();
+            let b = connect(&mut r, "b", true).unwrap();
+            send(&mut r, &a, vec![subscribe(1, &[("$share/g/t", 1)])]);
+            send(&mut r, &b, vec![subscribe(1, &[("$share/g/t", 1)])]);
+            let _ = drain(&mut r, &a);
+            let _ = drain(&mut r, &b);
+            let mut b_got: Vec<String> = vec![];
+            for k in 0..n {
+                send(&mut r, &p, vec![publish("t", 1, 60 + k as u16, &format!("m{}", k), false)]);
+                let _ = drain(&mut r, &a); // a reads but never acknowledges
+                b_got.extend(receive_all(&mut r, &b).into_iter().map(|g| g.1)); // b reads and acknowledges
+            }
+            r.events(a.id, Event::Disconnect);
+            settle(&mut r);
+            send(&mut r, &p, vec![publish("t", 1, 99, "last", false)]);
+            b_got.extend(receive_all(&mut r, &b).into_iter().map(|g| g.1));
+            let mut sorted = b_got.clone();
+            sorted.sort();
+            let before = sorted.len();
+            sorted.dedup();
+            if sorted.len() != before {
+                fail = Some(format!("input=[{}] detail=[b was sent {:?}: messages it had acknowledged were forwarded to it a second time]", desc, b_got));
+                break 'outer;
+            }
+        }
+    }
+    report(name, "C17", "2 strategies x 2/4/6 publishes before a persistent member with unacknowledged messages loses its link", cases, fail);
+}
+
 /// C17: membership changes never lose or duplicate messages — a member that repeated its group subscription and then
 /// leaves, and a member that joins while the group has an unforwarded backlog
 // @native props=C17 tier=quick fn=SharedGroup::{add_client,remove_client}+Router::{prepare_filter,handle_disconnection,forward_device_data}
